@@ -276,7 +276,24 @@ impl<'a> PGen<'a> {
             }
         }
         match t {
-            T::LX => match self.rng.below(7) {
+            T::LX => match self.rng.below(8) {
+                7 => {
+                    // many elements that are equal in content but live in different heap cells
+                    // (all of them, or in three classes): records with function fields,
+                    // functions, nested lists - the size axis for values without an order
+                    let n = *self.rng.pick(&[9i64, 12, 17, 33, 70, 300]);
+                    let classes = self.rng.chance(1, 3);
+                    let tag = if classes { bin("%", id("i"), num(3)) } else { num(0) };
+                    let elem = match self.rng.below(5) {
+                        0 => E::Rec(vec![RK::Static("kind".into(), st("unit")), RK::Static("scale".into(), lam(&["x"], bin("*", id("x"), num(2)))), RK::Static("c".into(), tag)]),
+                        1 if !classes => lam(&["x"], bin("+", id("x"), num(1))),
+                        2 => E::List(vec![tag, E::Rec(vec![RK::Static("a".into(), num(2))])]),
+                        3 => E::Rec(vec![RK::Static("f".into(), E::List(vec![lam(&["q"], id("q"))])), RK::Static("c".into(), tag)]),
+                        _ => E::Rec(vec![RK::Static("n".into(), numf("0.5")), RK::Static("c".into(), tag)]),
+                    };
+                    let xs = call(id("map"), vec![call(id("range"), vec![num(n)]), lam(&["i"], elem)]);
+                    if self.rng.chance(1, 2) { call(id("unique"), vec![xs]) } else { xs }
+                }
                 6 => {
                     // characters of one string looked up by index several times (in range, past
                     // the end, negative), the string written out each time
